@@ -35,7 +35,19 @@ ASSUMPTIONS = ['exact arithmetic (rounding not decided)',
 
 
 def jobs(tier):
-    return [(c, tier) for c in MESH_CLASSES]
+    out = [(c, tier) for c in MESH_CLASSES]
+    if tier == 'quick':
+        from ..model import DIM
+        for c in MESH_CLASSES:
+            for sz in F.QUICK_SMALL_SIZES[DIM[c]]:
+                out.append((c, tier, sz))
+    if tier != 'quick':
+        # every cell count below the symbolic bound (N >= 8): concrete sizes, every cell, symbolic data
+        from ..model import DIM
+        for c in MESH_CLASSES:
+            for sz in F.SMALL_SIZES[DIM[c]]:
+                out.append((c, tier, sz))
+    return out
 
 
 def apply_row(row, field):
@@ -84,19 +96,21 @@ def zero_excluding_ties(r: Rat, tie_head):
 
 
 def job(args):
-    cls, tier = args
+    cls, tier = args[0], args[1]
+    sizes = args[2] if len(args) > 2 else None
     sm = SourceModel()
-    w = World(sm, cls)
+    w = World(sm, cls, sizes=sizes)
     obs, samples, units = [], [], set()
+    szt = f" sizes={sizes}" if sizes else ''
 
     def ob(rule, construct, ok, detail='', loc=''):
-        obs.append(dict(rule=rule, construct=construct, ok=bool(ok), detail=str(detail)[:1500], loc=loc, nontrivial=True))
+        obs.append(dict(rule=rule, construct=construct, ok=bool(ok), detail=(str(detail) + szt)[:1500], loc=loc, nontrivial=True))
     phi = w.cell_variable('phi')
     D = w.face_variable('D')
     u = w.face_variable('u')
     uu = w.face_variable('uu')
     cells = F.cell_classes(w, tier, mode='axes' if tier == 'quick' else 'product')
-    if w.dim == 3 and tier != 'quick':
+    if w.dim == 3 and tier != 'quick' and w.symbolic:
         cells = F.cell_classes(w, 'quick', mode='product')
     chains = [
         ('E1', 'diffusion', 'diffusionTerm', (D,), lambda: w.call('calculus', 'divergenceTerm', _mul(w, D, w.call('calculus', 'gradientTerm', phi))), None),
@@ -149,6 +163,8 @@ def job(args):
         has_fl = any(isinstance(atom_key(a), tuple) and atom_key(a)[0] == 'fn' and atom_key(a)[1] == 'FL' for a in v.atoms())
         v0 = map_atoms(v, fl_to(0))
         ob('E4', construct, is_zero(v0), f"cell {F.cstr(P)}: TVD RHS with FL=0 is {fmt_rat(v0, 8)}" if not is_zero(v0) else f"cell {F.cstr(P)} (limiter atoms present: {has_fl})", fi.loc())
+    if sizes:
+        return dict(obs=obs, units=sorted(units), samples=samples, funcs=sorted(w.interp.funcs_seen))
     # ---- E5 uniform grid
     wu = World(sm, cls, uniform=True)
     phiu = wu.cell_variable('phi')
